@@ -425,7 +425,11 @@ func scopeImp(k int, aliasModes bool) []*SrcPkg {
 	var sel []string
 	var rec func()
 	emit := func(mode string) {
-		pkgs = append(pkgs, impPkg(fmt.Sprintf("s/imp_%d", idx), append([]string{}, sel...), mode))
+		pfx := "imp"
+		if !aliasModes {
+			pfx = fmt.Sprintf("impp%d", k)
+		}
+		pkgs = append(pkgs, impPkg(fmt.Sprintf("s/%s_%d", pfx, idx), append([]string{}, sel...), mode))
 		idx++
 	}
 	rec = func() {
